@@ -442,8 +442,15 @@ def extras(lits):
             F(1, "optional", T("i32"), "a"), F(7, "optional", T("string"), "g"), F(5, "optional", T("E"), "e")])], "Op2",
          M(("a", ID("k_i32_a")), ("g", ID("b.q_string_a")), ("e", ID("k_e_a")))),
     ]
+    xs.append(("constofincludedtypedefonly", [{"file": 2, "sec": "typedefs", "d": {"name": "TDonly", "type": {"n": "double"}}}],
+               "b.TDonly", D("1.5")))
     return [{"id": "x%d" % (i + 1), "way": w, "defs": defs, "ct": ttype(idl.type_from_str(ct)), "cv": lits.cv(cv)}
             for i, (w, defs, ct, cv) in enumerate(xs)]
+
+
+# cases that get a program of their own (nothing else in it uses what they use)
+ISOLATED_WAYS = {"constofincludedtypedefonly"}
+NO_STRUCT_WAYS = {"constofincludedtypedefonly"}
 
 
 ALT = {"bool": ["b:1", "b:0"], "i8": ["i8:1", "i8:2"], "i16": ["i16:1", "i16:2"], "i32": ["i32:1", "i32:2"],
